@@ -105,7 +105,7 @@ theorem setDecodedData_consistent (decode : DPT → Pay → DRes Val) (tbl : Tab
     · rw [if_pos h2] at h; injection h with h; subst h; exact ⟨hc, rfl, rfl, rfl⟩
     · rw [if_neg h2] at h
       cases hd : t.dst with
-      | none => rw [hd] at h; exact absurd h (by simp)
+      | none => rw [hd] at h; injection h with h; subst h; exact ⟨hc, hd, rfl, rfl⟩
       | some ga =>
         rw [hd] at h
         dsimp only at h
@@ -123,23 +123,21 @@ theorem setDecodedData_consistent (decode : DPT → Pay → DRes Val) (tbl : Tab
           · exact ⟨hc, hd, rfl, rfl⟩
 
 /-- The only way a table entry can keep a telegram from the devices: set_decoded_data raises exactly when the
-configured type raises an UNDECLARED exception on the payload (C07 says no datapoint type does), or when a value
-telegram is addressed to an individual address (which the telegram layer never produces). -/
+configured type raises an UNDECLARED exception on the payload (C07 says no datapoint type does). A value
+telegram addressed to an individual address is left alone (it raised AssertionError before fix d5f8117). -/
 theorem setDecodedData_raises_iff (decode : DPT → Pay → DRes Val) (tbl : Table GA DPT)
     (t : Telegram GA DPT Pay Val) (hfresh : t.decoded = none) (hk : t.kind.isValue = true) (e : Exc) :
     setDecodedData decode tbl t = .error e ↔
-      (t.dst = none ∧ e = .assertion) ∨
       (∃ ga c, t.dst = some ga ∧ tbl.get ga = some c ∧ decode c t.payload = .other ∧ e = .other) := by
   cases hd : t.dst with
   | none =>
-    have : setDecodedData decode tbl t = .error .assertion := by
+    have : setDecodedData decode tbl t = .ok t := by
       unfold setDecodedData; rw [hfresh, hk, hd]; rfl
     rw [this]
     constructor
-    · intro h; injection h with h; exact Or.inl ⟨rfl, h.symm⟩
-    · rintro (⟨_, rfl⟩ | ⟨ga, c, h, _⟩)
-      · rfl
-      · exact absurd h (by simp)
+    · intro h; exact absurd h (by simp)
+    · rintro ⟨ga, c, h, _⟩
+      exact absurd h (by simp)
   | some ga =>
     rw [setDecodedData_fresh decode tbl t ga hfresh hk hd]
     unfold lookupAndDecode
@@ -147,9 +145,8 @@ theorem setDecodedData_raises_iff (decode : DPT → Pay → DRes Val) (tbl : Tab
     | none =>
       constructor
       · intro h; exact absurd h (by simp)
-      · rintro (⟨h, _⟩ | ⟨ga', c, h1, h2, _⟩)
-        · exact absurd h (by simp)
-        · simp only [Option.some.injEq] at h1; subst h1; rw [hg] at h2; exact absurd h2 (by simp)
+      · rintro ⟨ga', c, h1, h2, _⟩
+        simp only [Option.some.injEq] at h1; subst h1; rw [hg] at h2; exact absurd h2 (by simp)
     | some c =>
       simp only
       unfold applyDecoder
@@ -160,12 +157,11 @@ theorem setDecodedData_raises_iff (decode : DPT → Pay → DRes Val) (tbl : Tab
         | declared => rw [hdec] at h; exact absurd h (by simp)
         | other =>
           rw [hdec] at h; injection h with h
-          exact Or.inr ⟨ga, c, rfl, hg, hdec, h.symm⟩
-      · rintro (⟨h, _⟩ | ⟨ga', c', h1, h2, h3, rfl⟩)
-        · exact absurd h (by simp)
-        · simp only [Option.some.injEq] at h1; subst h1
-          rw [hg] at h2; simp only [Option.some.injEq] at h2; subst h2
-          rw [h3]
+          exact ⟨ga, c, rfl, hg, hdec, h.symm⟩
+      · rintro ⟨ga', c', h1, h2, h3, rfl⟩
+        simp only [Option.some.injEq] at h1; subst h1
+        rw [hg] at h2; simp only [Option.some.injEq] at h2; subst h2
+        rw [h3]
 
 /-- With decoders that raise declared errors only, set_decoded_data never raises on a group telegram. -/
 theorem setDecodedData_total (decode : DPT → Pay → DRes Val) (hdecl : ∀ c p, decode c p ≠ .other)
